@@ -27,9 +27,23 @@ fn n_lines(b: &[u8]) -> u32 { 1 + b.iter().filter(|c| **c == b'\n').count() as u
 // Expectation: "any" (accept or reject cleanly), "reject" (must be a front-end
 // rejection), "read_error" (not UTF-8), with an optional minimum line.
 pub fn front_contract(src: &[u8], expect: &str, min_line: u32, classify_inproc: bool) -> Result<&'static str, String> {
-    let o = run_cli(src);
+    let quick = CliOpts{timeout: std::time::Duration::from_secs(3), patient: false, ..CliOpts::default()};
+    let mut o = run_cli_opts(src, &quick);
     if o.status == Status::Timeout {
-        return Err("no termination within the time limit while scanning / parsing".to_string());
+        // An accepted program may simply not terminate (a mutation can turn a
+        // counter loop into an endless one): that is not the front end's
+        // doing. The in-process front end tells the two apart.
+        if std::str::from_utf8(src).is_ok() && worker_available() {
+            if let Ok(FrontRes::Accepted) = inproc_front(src) {
+                return Ok("accepted, does not terminate (not judged)");
+            }
+        } else if std::str::from_utf8(src).is_ok() {
+            return Ok("undecided without the in-process front end");
+        }
+        o = run_cli_opts(src, &CliOpts{timeout: std::time::Duration::from_secs(30), patient: false, ..CliOpts::default()});
+        if o.status == Status::Timeout {
+            return Err("no termination within the time limit while scanning / parsing".to_string());
+        }
     }
     if o.crashed() {
         return Err(format!("crash: {}", o.brief()));
